@@ -79,6 +79,8 @@ class Topo:
 
     @staticmethod
     def is_persistent(conn):
+        if conn.get("seid") == "k":        # child entity of model K: `eo` persistent, `po` not
+            return conn.get("sattr") == "eo"
         return conn.get("sattr") == "po"
 
     def data_conns(self):
